@@ -91,9 +91,11 @@ def audit_sources():
     return bad
 
 
-def coqchk(pid):
-    """thorough tier: independent re-check of Props/Cxx.vo and everything it depends on; returns (ok, axioms text)."""
-    r = run(["timeout", "3000", "coqchk", "-silent", "-o", "-Q", os.path.join(V, "coq", "theories"), "ICS", f"ICS.Props.{pid}"])
+def coqchk(pid, extra=()):
+    """thorough tier: independent re-check of Props/Cxx.vo (and the property's extra Props files) and everything they
+    depend on; returns (ok, axioms text)."""
+    r = run(["timeout", "3000", "coqchk", "-silent", "-o", "-Q", os.path.join(V, "coq", "theories"), "ICS"] +
+            [f"ICS.Props.{f}" for f in [pid] + list(extra)])
     tail = r.stdout[-3000:]
     return r.returncode == 0, tail
 
@@ -355,7 +357,7 @@ def main():
 
     chk = None
     if tier == "thorough" and not args.replay and not pr["errors"]:
-        ok, out = coqchk(pid)
+        ok, out = coqchk(pid, getattr(mod, "EXTRA_PROPS", []))
         chk = {"ok": ok, "output_tail": out}
         if not ok:
             pr["errors"].append("coqchk failed: " + out[-800:])
